@@ -84,8 +84,101 @@ def dominating_edges(tr, body, site_bb):
                     node = peel(tr.expand(tr.place(body, sw.place, sw.defloc)))
                     for nm in nms:
                         out.append({"bb": bb, "kind": "enum", "label": nm, "node": node, "sw": sw})
+        else:
+            # integer test on a projected place (e.g. the `secs` field of a Duration pattern)
+            tv = getattr(sw, "tv", {})
+            pl = sw.cond.get("copy") or sw.cond.get("move")
+            if pl is None:
+                continue
+            for val, tgt in tv.items():
+                if tgt == sw.otherwise:
+                    continue
+                if g.edge_dominates((bb, tgt), site_bb):
+                    node = peel(tr.expand(tr.place(body, pl, (bb, len(g.stmts(bb))))))
+                    out.append({"bb": bb, "kind": "int", "label": val, "node": node, "sw": sw})
+            if sw.otherwise not in tv.values() and g.edge_dominates((bb, sw.otherwise), site_bb):
+                node = peel(tr.expand(tr.place(body, pl, (bb, len(g.stmts(bb))))))
+                out.append({"bb": bb, "kind": "int", "label": "otherwise", "node": node, "sw": sw})
     body._cache[ck] = out
     return out
+
+
+TRY_BRANCH = "core::ops::try_trait::Try::branch"
+PASS_CALLS = ("core::result::Result::<T, E>::map_err", "core::task::poll::Poll::<core::result::Result<T, E>>::map_err",
+              "core::result::Result::<T, E>::ok", "core::ops::try_trait::FromResidual::from_residual")
+
+
+def derives(tr, node, V, depth=0, variants=("Ready", "Ok", "Continue", "Some")):
+    """node is obtained from node V through success-payload projections, `?`, refs and casts"""
+    if depth > 14:
+        return False
+    if node == V:
+        return True
+    k = node[0]
+    if k == "phi":
+        return bool(node[1]) and all(derives(tr, x, V, depth + 1, variants) for x in node[1])
+    if k in ("ref", "deref"):
+        return derives(tr, node[1], V, depth + 1, variants)
+    if k == "cast":
+        return derives(tr, node[2], V, depth + 1, variants)
+    if k == "downcast":
+        if variants is None or node[2] in variants:
+            return derives(tr, node[1], V, depth + 1, variants)
+        return False
+    if k == "field":
+        return derives(tr, node[1], V, depth + 1, variants)
+    if k == "call":
+        c = tr.call_of(node)
+        if c.def_ == TRY_BRANCH or c.def_ in PASS_CALLS:
+            return derives(tr, tr.expand(tr.operand(c.g.b, c.args[0], c.loc)), V, depth + 1, variants)
+    return False
+
+
+def await_node(body, a):
+    """the node standing for `x.await`'s poll result"""
+    return ("call", body.crate.name, body.def_, a.poll_bb)
+
+
+def awaited_call(tr, body, a):
+    """Call object of the awaited expression if it is a direct call result, else None"""
+    g = graph(body)
+    n = peel(tr.expand(tr.operand(body, a.awaitee, (a.into_bb, len(g.stmts(a.into_bb))))))
+    if n[0] == "call":
+        return tr.call_of(n)
+    return None
+
+
+def zero_duration_on(tr, edges, V):
+    """do the dominating `edges` establish that the Duration derived from V is zero?
+    idioms: pattern `Duration::ZERO` (secs == 0 and nanos == 0), is_zero(), == Duration::ZERO"""
+    secs = nanos = False
+    for e in edges:
+        n = e["node"]
+        if e["kind"] == "int" and e["label"] == "0" and n[0] == "field" and n[2] == "secs" and derives(tr, n, V):
+            secs = True
+        if e["kind"] == "bool":
+            c = cmp_on_edge(tr, e)
+            if c and c[0] == "Eq":
+                for (x, y) in ((c[1], c[2]), (c[2], c[1])):
+                    xs = x
+                    while xs[0] in ("cast", "field") and not (xs[0] == "field" and xs[2] == "nanos"):
+                        xs = peel(xs[2] if xs[0] == "cast" else xs[1])
+                    if xs[0] == "field" and xs[2] == "nanos" and derives(tr, xs, V) and _is_zero_const(y):
+                        nanos = True
+                    if derives(tr, x, V) and y[0] == "const" and (y[2] or "").endswith("Duration::ZERO"):
+                        secs = nanos = True
+            if e["label"] == "true" and n[0] == "call":
+                cc = tr.call_of(n)
+                if cc.name == "is_zero" and derives(tr, peel(tr.expand(tr.operand(cc.g.b, cc.args[0], cc.loc))), V):
+                    secs = nanos = True
+    return secs and nanos
+
+
+def _is_zero_const(n):
+    n = peel(n)
+    while n[0] == "cast":
+        n = peel(n[2])
+    return n[0] == "const" and (n[3] == "0" or (n[1] or "").startswith("0_"))
 
 
 def normalise_cmp(tr, node):
